@@ -308,6 +308,9 @@ def tag_corpus(V) -> list[dict]:
         {"kind": "tag", "tag": "pkg@v2.0.0", "prefix": "pkg@", "tags": ["pkg@v2.0.0", ""]},
         {"kind": "tag", "tag": "pkg@vv1.0", "prefix": "pkg@", "tags": ["pkg@vv1.0", "pkg@v0.9"]},
         {"kind": "tag", "tag": "pkg@v1.0", "prefix": "", "tags": ["pkg@v1.0"]},
+        # the order `git tag --sort=-version:refname` really prints: release candidates above their final release
+        {"kind": "tag", "tag": "pkg@v1.3.0-rc.1", "prefix": "pkg@", "tags": ["pkg@v1.3.0-rc.2", "pkg@v1.3.0-rc.1", "pkg@v1.3.0", "pkg@v1.2.9"]},
+        {"kind": "tag", "tag": "pkg@v1.3.0", "prefix": "pkg@", "tags": ["pkg@v1.3.0-rc.2", "pkg@v1.3.0-rc.1", "pkg@v1.3.0", "pkg@v1.2.9"]},
         hist("pkg", [V([1, 3, 0]), V([1, 3, 0], ["rc", 1]), V([1, 2, 9]), V([1, 2, 8])], "semver", True, 1),
         hist("pkg", [V([1, 3, 0]), V([1, 3, 0], ["rc", 1]), V([1, 2, 9]), V([1, 2, 8])], "semver", False, 0),
         hist("llama-index-workflows", [V([2, 0]), V([1, 9, 9, 1]), V([1, 9, 9])], "pep", False, 1),
